@@ -257,13 +257,6 @@ func init() {
 		// the joiner also waits for the stream readers: a stream that is never closed shows up as a hang
 		jn.wait()
 		e.drain()
-		if e.params["purge"] == 1 {
-			for _, s := range e.subs {
-				if len(s.tEnter) == 0 {
-					s.purgedAt = e.params["purgeT"]
-				}
-			}
-		}
 		for _, b := range e.batches {
 			e.batchWait(b)
 		}
